@@ -129,6 +129,7 @@ const OpInfo op_info[OP_NOPS] = {
     {"new_*_fft_precomp with buffers/get_buffer/delete", 0, "", LC, -1, OP_NONE, false},
     {"two modules of one dimension, one deleted, the other used", 0, "", LC, -1, OP_NONE, false},
     {"sequence of module creations, uses and deletions", 0, "", LC, -1, OP_NONE, false},
+    {"sequence of table creations, uses and deletions", 0, "", LC, -1, OP_NONE, false},
 };
 
 int& op_leak_errors() {
@@ -499,7 +500,8 @@ void op_invoke(const Program& P, const Call& c, const std::vector<void*>& mods, 
         st ^= st << 17;
         return st;
       };
-      const MODULE_TYPE t = c.p[2] ? NTT120 : FFT64;
+      MODULE_TYPE t = c.p[2] == 1 ? NTT120 : FFT64;  // p2 == 2: the kind is drawn per handle
+      MODULE_TYPE ht[4] = {t, t, t, t};
       uint64_t dims[3];
       for (int i = 0; i < 3; ++i) dims[i] = 1ull << (1 + (rnd() >> 33) % (c.p[3] ? c.p[3] : 6));
       static const int64_t ps[] = {3, 5, -1, 7, -3, 1};
@@ -512,8 +514,9 @@ void op_invoke(const Program& P, const Call& c, const std::vector<void*>& mods, 
         uint64_t what = (rnd() >> 35) % 3;
         if (!h[k]) {
           hn[k] = dims[(rnd() >> 37) % 3];
+          if (c.p[2] == 2) ht[k] = ((rnd() >> 41) & 1) ? NTT120 : FFT64;
           lo[k] = sim_lib_alloc_mark();
-          h[k] = new_module_info(hn[k], t);
+          h[k] = new_module_info(hn[k], ht[k]);
           hi[k] = sim_lib_alloc_mark();
         } else if (what == 0) {
           delete_module_info(h[k]);
@@ -521,6 +524,7 @@ void op_invoke(const Program& P, const Call& c, const std::vector<void*>& mods, 
           closed.push_back({lo[k], hi[k]});
         } else {
           const uint64_t n = hn[k];
+          t = ht[k];
           int64_t* a = (int64_t*)malloc(n * 8);
           int64_t* r = (int64_t*)malloc(n * 8);
           void* d = malloc(n * (t == NTT120 ? 32 : 8));
@@ -567,6 +571,147 @@ void op_invoke(const Program& P, const Call& c, const std::vector<void*>& mods, 
           closed.push_back({lo[k], hi[k]});
         }
       // all modules are gone: nothing allocated inside any new_module_info may be live (shared tables included)
+      for (auto& w : closed) leaks += sim_lib_live_in_range(w.first, w.second);
+      if (sim_current_task() < 0) op_leak_errors() = leaks;
+      op_selfcheck_errors() = bad;
+      break;
+    }
+    case OP_LIFE_TABLE_SEQ: {
+      // up to twelve table handles over a small pool of (kind, dimension) keys are created, used and deleted in a seeded
+      // order, duplicates of one key alive at once included. Every use transforms data derived from the key alone; all
+      // uses of one key - whichever instance, whenever built - must return the same bytes, and at the end nothing that
+      // was allocated may be live. (Registries, reference counts, "last built" shortcuts and shared tables live here.)
+      uint64_t st = c.p[0] * 0x9E3779B97F4A7C15ull + 11;
+      auto rnd = [&]() {
+        st ^= st << 13;
+        st ^= st >> 7;
+        st ^= st << 17;
+        return st;
+      };
+      static const int kinds_all[] = {TB_Q120_NTT, TB_Q120_INTT, TB_REIM_FFT, TB_REIM_IFFT, TB_CPLX_FFT, TB_CPLX_IFFT, TB_Q120_BAA, TB_Q120_BBB, TB_Q120_BBC};
+      const int nkeys = 2 + (int)(c.p[2] % 9);  // 2..10 keys
+      struct Key {
+        int kind;
+        uint64_t dim;
+        uint64_t ref;
+        bool has_ref;
+      };
+      std::vector<Key> keys;
+      const bool q120_heavy = (rnd() >> 20) & 1;
+      for (int i = 0; i < nkeys; ++i) {
+        Key k;
+        k.kind = q120_heavy ? kinds_all[(rnd() >> 33) % 2] : kinds_all[(rnd() >> 33) % 9];
+        k.dim = 1ull << (1 + (rnd() >> 36) % (c.p[3] ? c.p[3] : 6));
+        if (k.kind >= TB_Q120_BAA) k.dim = 1 + (rnd() >> 38) % 7;  // ell of the product
+        k.ref = 0;
+        k.has_ref = false;
+        keys.push_back(k);
+      }
+      const int NH = 12;
+      void* h[NH];
+      int hk[NH];
+      uint64_t lo[NH], hi[NH];
+      for (int i = 0; i < NH; ++i) h[i] = nullptr;
+      int bad = 0, leaks = 0;
+      std::vector<std::pair<uint64_t, uint64_t>> closed;
+      auto spec = [&](const Key& k) {
+        TableSpec t;
+        t.kind = k.kind;
+        t.m = k.kind >= TB_Q120_BAA ? 0 : k.dim;
+        t.divisor = 1;
+        t.log2 = 0;
+        return t;
+      };
+      auto use = [&](void* tb, Key& k) {
+        uint64_t ds = (uint64_t)k.kind * 1000003ull + k.dim * 7919ull + 1;
+        auto dr = [&]() {
+          ds ^= ds << 13;
+          ds ^= ds >> 7;
+          ds ^= ds << 17;
+          return ds;
+        };
+        uint64_t hsh = 0xcbf29ce484222325ull;
+        if (k.kind == TB_Q120_NTT || k.kind == TB_Q120_INTT) {
+          uint64_t* d = (uint64_t*)malloc(k.dim * 32 + 32);
+          uint64_t* dd = (uint64_t*)(((uintptr_t)d + 31) & ~(uintptr_t)31);
+          for (uint64_t i = 0; i < 4 * k.dim; ++i) dd[i] = dr() >> 2;
+          if (k.kind == TB_Q120_NTT)
+            q120_ntt_bb_avx2((const q120_ntt_precomp*)tb, (q120b*)dd);
+          else
+            q120_intt_bb_avx2((const q120_ntt_precomp*)tb, (q120b*)dd);
+          // lazy lanes: compare modulo the primes
+          static const uint64_t QQ[4] = {Q1, Q2, Q3, Q4};
+          for (uint64_t i = 0; i < 4 * k.dim; ++i) {
+            uint64_t v = dd[i] % QQ[i & 3];
+            hsh = hash_bytes(&v, 8, hsh);
+          }
+          free(d);
+        } else if (k.kind == TB_Q120_BAA || k.kind == TB_Q120_BBB || k.kind == TB_Q120_BBC) {
+          const uint64_t ell = k.dim;
+          uint64_t* x = (uint64_t*)malloc(ell * 32 + 8);
+          uint64_t* y = (uint64_t*)malloc(ell * 32 + 8);
+          uint64_t res[4] = {0, 0, 0, 0};
+          static const uint64_t QQ[4] = {Q1, Q2, Q3, Q4};
+          if (k.kind == TB_Q120_BAA) {
+            for (uint64_t i = 0; i < 4 * ell; ++i) x[i] = dr() >> 33, y[i] = dr() >> 33;
+            q120_vec_mat1col_product_baa_ref((q120_mat1col_product_baa_precomp*)tb, ell, (q120b*)res, (q120a*)x, (q120a*)y);
+          } else if (k.kind == TB_Q120_BBB) {
+            for (uint64_t i = 0; i < 4 * ell; ++i) x[i] = dr(), y[i] = dr();
+            q120_vec_mat1col_product_bbb_ref((q120_mat1col_product_bbb_precomp*)tb, ell, (q120b*)res, (q120b*)x, (q120b*)y);
+          } else {
+            for (uint64_t i = 0; i < 4 * ell; ++i) x[i] = dr();
+            uint32_t* yc = (uint32_t*)y;
+            for (uint64_t i = 0; i < 8 * ell; ++i) yc[i] = (uint32_t)(dr() >> 33);
+            q120_vec_mat1col_product_bbc_ref((q120_mat1col_product_bbc_precomp*)tb, ell, (q120b*)res, (q120b*)x, (q120c*)y);
+          }
+          for (int i = 0; i < 4; ++i) {
+            uint64_t v = res[i] % QQ[i];
+            hsh = hash_bytes(&v, 8, hsh);
+          }
+          free(x);
+          free(y);
+        } else {
+          const uint64_t m = k.dim;
+          double* d = (double*)malloc(2 * m * 8 + 8);
+          for (uint64_t i = 0; i < 2 * m; ++i) d[i] = (double)((int64_t)(dr() >> 44) - (1 << 19));
+          switch (k.kind) {
+            case TB_REIM_FFT: reim_fft((const REIM_FFT_PRECOMP*)tb, d); break;
+            case TB_REIM_IFFT: reim_ifft((const REIM_IFFT_PRECOMP*)tb, d); break;
+            case TB_CPLX_FFT: cplx_fft((const CPLX_FFT_PRECOMP*)tb, d); break;
+            default: cplx_ifft((const CPLX_IFFT_PRECOMP*)tb, d); break;
+          }
+          hsh = hash_bytes(d, 2 * m * 8, hsh);
+          free(d);
+        }
+        if (!k.has_ref) {
+          k.ref = hsh;
+          k.has_ref = true;
+        } else if (k.ref != hsh)
+          bad++;
+      };
+      for (uint64_t step = 0; step < c.p[1]; ++step) {
+        int i = (int)((rnd() >> 40) % NH);
+        uint64_t what = (rnd() >> 35) % 4;
+        if (!h[i]) {
+          hk[i] = (int)((rnd() >> 37) % (uint64_t)nkeys);
+          lo[i] = sim_lib_alloc_mark();
+          h[i] = table_create(spec(keys[hk[i]]));
+          hi[i] = sim_lib_alloc_mark();
+          if ((rnd() >> 39) & 1) use(h[i], keys[hk[i]]);
+        } else if (what == 0) {
+          table_delete(spec(keys[hk[i]]), h[i]);
+          h[i] = nullptr;
+          closed.push_back({lo[i], hi[i]});
+        } else {
+          use(h[i], keys[hk[i]]);
+        }
+      }
+      for (int i = 0; i < NH; ++i)
+        if (h[i]) {
+          if ((rnd() >> 39) & 1) use(h[i], keys[hk[i]]);
+          table_delete(spec(keys[hk[i]]), h[i]);
+          closed.push_back({lo[i], hi[i]});
+        }
       for (auto& w : closed) leaks += sim_lib_live_in_range(w.first, w.second);
       if (sim_current_task() < 0) op_leak_errors() = leaks;
       op_selfcheck_errors() = bad;
